@@ -359,6 +359,8 @@ func (g *c19Gen) setupBlock(b int) ([][]byte, []string) {
 			add(g.acc(i+4), "join pool 1", &gammtypes.MsgJoinPool{Sender: g.acc(i + 4).Addr.String(), PoolId: 1, ShareOutAmount: gammtypes.OneShare.MulRaw(int64(3 + i)), TokenInMaxs: sdk.NewCoins(c("uosmo", 900000000000), c("foo", 900000000000))})
 		}
 	case 2:
+		// (this version's ValidateBasic refuses an empty NewAdmin: the transaction fails everywhere; the empty admin itself,
+		// which older versions and genesis files can carry, is written by the recorded admin action of block 3)
 		add(g.acc(3), "tf renounce gone", &tftypes.MsgChangeAdmin{Sender: g.acc(3).Addr.String(), Denom: "factory/" + g.acc(3).Addr.String() + "/gone", NewAdmin: ""})
 		for i := 0; i < 4; i++ {
 			du := []time.Duration{time.Hour, 3 * time.Hour, 7 * time.Hour}[i%3]
@@ -862,7 +864,7 @@ func c19RunRole(c *vk.Ctx) bool {
 			}
 			blk := c19Block{Height: ch.Height, TimeNs: ch.Time.UnixNano(), Descs: ds}
 			if b == 3 {
-				blk.Admin = []string{"superfluid-asset:gamm/pool/1"}
+				blk.Admin = []string{"superfluid-asset:gamm/pool/1", "tf-empty-admin:factory/" + g.acc(3).Addr.String() + "/gone"}
 			}
 			if b == 4 {
 				blk.Admin = []string{"fee-token:foo:1", "distr-records:1,3,4", "superfluid-cl-asset:3"}
@@ -1485,6 +1487,17 @@ func c19ApplyAdmin(ch *chain.Chain, admin []string) {
 			id, _ := strconv.ParseUint(d, 10, 64)
 			if err := ch.App.SuperfluidKeeper.AddNewSuperfluidAsset(ch.Ctx, sftypes.SuperfluidAsset{Denom: cltypes.GetConcentratedLockupDenomFromPoolId(id), AssetType: sftypes.SuperfluidAssetTypeConcentratedShare}); err != nil {
 				panic(fmt.Sprintf("admin %s: %v", a, err))
+			}
+		}
+		if d, ok := strings.CutPrefix(a, "tf-empty-admin:"); ok {
+			// a renounced administrator as older versions and genesis files record it: the empty string
+			bz, _ := (&tftypes.DenomAuthorityMetadata{Admin: ""}).Marshal()
+			if bz == nil {
+				bz = []byte{}
+			}
+			ch.Ctx.KVStore(ch.App.AppKeepers.GetKey(tftypes.StoreKey)).Set(append(tftypes.GetDenomPrefixStore(d), []byte(tftypes.DenomAuthorityMetadataKey)...), bz)
+			if m, err := ch.App.TokenFactoryKeeper.GetAuthorityMetadata(ch.Ctx, d); err != nil || m.Admin != "" {
+				panic(fmt.Sprintf("admin %s: %v %v", a, m, err))
 			}
 		}
 		if d, ok := strings.CutPrefix(a, "fee-token:"); ok {
